@@ -1062,7 +1062,8 @@ def t6(facts, tier):
             if D in guards_:
                 adt, bfield = guards_[D]
                 dropf = next((g for g in facts.fns.values() if (g.get("impl") or {}).get("trait") in ("core::ops::drop::Drop", "std::ops::Drop")
-                              and (g.get("impl") or {}).get("self_ty", "").split("<")[0] == (adt or "").split("<")[0] and g.get("body")), None)
+                              and re.split(r"[<]", (g.get("impl") or {}).get("self_ty", "").rsplit("::", 1)[-1])[0] == (adt or "").rsplit("::", 1)[-1].split("<")[0]
+                              and g.get("body")), None)
                 counter = None
                 if dropf is not None:
                     for y in walk(dropf["body"]):
